@@ -95,6 +95,9 @@ func (f *Metrics) NumGlyphs() int {
 // of their names.
 func (f *Metrics) GlyphList() []string {
 	glyphNames := maps.Keys(f.Glyphs)
+	if _, ok := f.Glyphs[".notdef"]; !ok {
+		glyphNames = append(glyphNames, ".notdef")
+	}
 
 	order := make(map[string]int, len(glyphNames))
 	for _, name := range glyphNames {
